@@ -148,6 +148,16 @@ func (g *Gen) runMxLoop(nops int) {
 				}
 			}
 			g.do(g.stakingLine())
+		case x < 90 && r.Intn(2) == 0:
+			// the validator set changes by more than the threshold in two (or three) consecutive blocks before any connector
+			// polls again: several signer sets wait for signatures at once, and the multisig takes them strictly in order
+			for k := 2 + r.Intn(2); k > 0; k-- {
+				vi := r.Intn(len(g.vals))
+				g.vals[vi].power = g.vals[vi].power*2 + int64(10+r.Intn(50))
+				g.do(g.stakingLine())
+				g.mxBlock()
+			}
+			g.stats["mloop:several-signer-sets-pending-at-once"]++
 		case x < 90:
 			g.do(fmt.Sprintf("world mx:mine:%d", 1+r.Intn(30)))
 		default:
